@@ -63,25 +63,42 @@ def real_sym(A, name, prefixes=()):
     return A.new("Symbol", name=name, type=A.ref("Real"), prefixes=VList(list(prefixes)))
 
 
-def build_node(A, conns, extra_flow_conns=()):
-    """flat class as flatten_symbols leaves it: connector symbols carrying __connector_type, their leaf symbols"""
+POT2, FLOW2 = ("T", "v"), ("Phi",)
+
+
+def members(c, second=()):
+    return (POT2, FLOW2) if c in second else (POT, FLOW)
+
+
+def build_node(A, conns, extra_flow_conns=(), second=()):
+    """flat class as flatten_symbols leaves it: connector symbols carrying __connector_type, their leaf symbols.
+    Connectors named in `second` are of ANOTHER connector class with the same simple name (say Thermal.Pin beside
+    Electrical.Pin) and other members."""
     eng = A.eng
-    ctype = A.new("Class", name="Pin", type="connector")
-    for v in POT:
-        ops.setitem(eng, ctype.fields["symbols"], v, real_sym(A, v))
-    for f in FLOW:
-        ops.setitem(eng, ctype.fields["symbols"], f, real_sym(A, f, ["flow"]))
-    ops.setitem(eng, ctype.fields["symbols"], "k", real_sym(A, "k", ["parameter"]))
+
+    def conn_class(pot, flow):
+        ct = A.new("Class", name="Pin", type="connector")
+        for v in pot:
+            ops.setitem(eng, ct.fields["symbols"], v, real_sym(A, v))
+        for f in flow:
+            ops.setitem(eng, ct.fields["symbols"], f, real_sym(A, f, ["flow"]))
+        ops.setitem(eng, ct.fields["symbols"], "k", real_sym(A, "k", ["parameter"]))
+        return ct
+    ctype = conn_class(POT, FLOW)
+    ctype2 = conn_class(POT2, FLOW2) if second else None
     node = A.new("Class", name="M", type="model")
     for c in list(conns) + list(extra_flow_conns):
+        pot, flow = members(c, second)
         cs = A.new("Symbol", name=c, type=A.ref("Pin"))
-        cs.fields["__connector_type"] = ctype
+        cs.fields["__connector_type"] = ctype2 if c in second else ctype
         ops.setitem(eng, node.fields["symbols"], c, cs)
-        for v in POT:
+        for v in pot:
             ops.setitem(eng, node.fields["symbols"], c + "." + v, real_sym(A, c + "." + v))
-        for f in FLOW:
+        for f in flow:
             ops.setitem(eng, node.fields["symbols"], c + "." + f, real_sym(A, c + "." + f, ["flow"]))
         ops.setitem(eng, node.fields["symbols"], c + ".k", real_sym(A, c + ".k", ["parameter"]))
+    if second:
+        return node, (ctype, ctype2)
     return node, ctype
 
 
@@ -123,7 +140,7 @@ class Sem:
         return self.term(e.fields["left"]) == self.term(e.fields["right"])
 
 
-def reference(sem, conns, clauses, inner, all_flow_conns):
+def reference(sem, conns, clauses, inner, all_flow_conns, second=()):
     """Modelica connection sets: potentials equal within a set; sum(inside flows) - sum(outside flows) = 0; unconnected flows zero"""
     parent = {}
 
@@ -142,17 +159,18 @@ def reference(sem, conns, clauses, inner, all_flow_conns):
     for x in list(parent):
         sets.setdefault(find(x), []).append(x)
     eqs = []
-    for members in sets.values():
-        for v in POT:
-            first = members[0][0]
-            for m, _fl in members[1:]:
+    for mem in sets.values():
+        pot, flow = members(mem[0][0], second)
+        for v in pot:
+            first = mem[0][0]
+            for m, _fl in mem[1:]:
                 eqs.append(sem.var(first + "." + v) == sem.var(m + "." + v))
-        for f in FLOW:
-            eqs.append(z3.Sum([sem.var(m + "." + f) if fl else -sem.var(m + "." + f) for m, fl in members]) == 0)
+        for f in flow:
+            eqs.append(z3.Sum([sem.var(m + "." + f) if fl else -sem.var(m + "." + f) for m, fl in mem]) == 0)
     connected = {m for ms in sets.values() for m, _ in ms}
     for c in all_flow_conns:
         if c not in connected:
-            for f in FLOW:
+            for f in members(c, second)[1]:
                 eqs.append(sem.var(c + "." + f) == 0)
     return eqs, sets
 
@@ -177,10 +195,12 @@ CURATED = [
 
 
 def install_contracts(eng, A, ctype):
+    ctypes = ctype if isinstance(ctype, tuple) else (ctype,)
+
     def flatten_class(eng, args, kwargs):
-        if args[0] is not ctype:
-            raise Unsupported("flatten_class of something else than the connector class")
-        return ctype
+        if not any(args[0] is c for c in ctypes):
+            raise Unsupported("flatten_class of something else than a connector class")
+        return args[0]
 
     def find_class(eng, args, kwargs):
         raise PyRaise(eng.make_exc("FoundElementaryClassError", ""))
@@ -188,9 +208,9 @@ def install_contracts(eng, A, ctype):
     eng.call_contracts["Class.find_class"] = find_class
 
 
-def run_graph(eng, label, conns, clauses, inner, lonely):
+def run_graph(eng, label, conns, clauses, inner, lonely, second=()):
     A = setup(eng)
-    node, ctype = build_node(A, conns, lonely)
+    node, ctype = build_node(A, conns, lonely, second)
     install_contracts(eng, A, ctype)
     plain = A.new("Equation", left=A.ref("t"), right=A.prim(1))
     plain2 = A.new("Equation", left=A.ref("u"), right=A.prim(2))
@@ -201,7 +221,7 @@ def run_graph(eng, label, conns, clauses, inner, lonely):
     out = node.fields["equations"].items
     sem = Sem()
     emitted = [sem.eq(e) for e in out if e is not plain and e is not plain2]
-    ref, sets = reference(sem, conns, clauses, inner, list(conns) + list(lonely))
+    ref, sets = reference(sem, conns, clauses, inner, list(conns) + list(lonely), second)
     E, R = z3.And(emitted), z3.And(ref)
     info = dict(graph=label, clauses=["connect(%s, %s)" % (c[0], c[1]) for c in clauses], outside=[c for c in conns if not inner[c]])
     # (P) same solutions as the connection-set semantics, for all real values of the variables
@@ -209,7 +229,7 @@ def run_graph(eng, label, conns, clauses, inner, lonely):
     eng.prove("whole.connection_set_equations_imply_emitted_equations", z3.Implies(R, E), **info)
     eng.prove("whole.ordinary_equations_kept_in_order", z3.BoolVal([e for e in out if e is plain or e is plain2] == [plain, plain2] and out[0] is plain))
     eng.prove("whole.connector_symbols_stripped", z3.BoolVal(all("__connector_type" not in s.fields for s in node.fields["symbols"].vals) and
-                                                              all((c + "." + FLOW[0]) in node.fields["symbols"].keys for c in conns)))
+                                                              all((c + "." + members(c, second)[1][0]) in node.fields["symbols"].keys for c in conns)))
 
 
 def h_whole_sequences(eng):
@@ -247,6 +267,26 @@ def h_whole_hierarchical(eng):
     eng.input("graph", label)
     eng.cover("hier." + label)
     run_graph(eng, label, conns, clauses, {c: True for c in conns}, ["z.p"])
+
+
+# two connector classes with the same simple name and different members in one model (Electrical.Pin beside Thermal.Pin):
+# every clause is expanded with the members of the class of ITS connectors, whichever class was seen first
+TWO_CLASSES = [
+    ("first-then-second", ["a.p", "b.p", "c.h", "d.h"], [("a.p", "b.p"), ("c.h", "d.h")]),
+    ("second-then-first", ["a.p", "b.p", "c.h", "d.h"], [("c.h", "d.h"), ("a.p", "b.p")]),
+    ("interleaved", ["a.p", "b.p", "e.p", "c.h", "d.h", "f.h"], [("a.p", "b.p"), ("c.h", "d.h"), ("b.p", "e.p"), ("f.h", "d.h")]),
+]
+
+
+def h_two_connector_classes(eng):
+    label, conns, clauses = TWO_CLASSES[eng.choice(len(TWO_CLASSES))]
+    pattern = eng.choice(2)
+    inner = {c: (True if pattern == 0 else c[0] in "ac") for c in conns}
+    second = [c for c in conns + ["z.h"] if c.endswith(".h")]
+    eng.input("graph", label)
+    eng.input("inside", inner)
+    eng.cover("twoclasses." + label)
+    run_graph(eng, label, conns, clauses, inner, ["z.p", "z.h"], second)
 
 
 def h_whole_curated(eng):
@@ -582,9 +622,10 @@ HARNESSES = [("flatten_symbols: inside/outside mark of connect clause ends", h_i
              ("expand_connectors: curated graphs", h_whole_curated), ("expand_connectors: a connector connected from inside and from outside", h_whole_hierarchical),
              ("flow branch: merge step from every well-formed table", h_merge_step),
              ("flow-sum emission from every well-formed table", h_emission),
-             ("connector variable kinds", h_variable_kinds), ("expand_connectors: elements of connector arrays", h_connector_arrays)]
+             ("connector variable kinds", h_variable_kinds), ("expand_connectors: elements of connector arrays", h_connector_arrays),
+             ("expand_connectors: two connector classes with one simple name", h_two_connector_classes)]
 EXPECTED_COVER = {"whole.n1", "whole.n2", "whole.n3", "whole.unconnected_connector", "merge.step", "merge.two_existing_sets", "merge.redundant", "merge.new_set",
-                  "merge.self_connection", "merge.same_name_other_flag", "emit.step", "emit.all_outside", "kinds.potential", "kinds.flow", "kinds.skipped", "kinds.rejected", "flag.marked", "flag.fresh"} | {"curated." + c[0] for c in CURATED} | {"arrays." + g[0] for g in ARRAY_GRAPHS} | {"hier." + g[0] for g in HIERARCHICAL}
+                  "merge.self_connection", "merge.same_name_other_flag", "emit.step", "emit.all_outside", "kinds.potential", "kinds.flow", "kinds.skipped", "kinds.rejected", "flag.marked", "flag.fresh"} | {"curated." + c[0] for c in CURATED} | {"arrays." + g[0] for g in ARRAY_GRAPHS} | {"hier." + g[0] for g in HIERARCHICAL} | {"twoclasses." + g[0] for g in TWO_CLASSES}
 BOUNDED = True
 LEVEL = "proof"
 TRUSTED = ["flatten_class(connector class) returns the connector's flat symbols with their prefixes (assumed contract; C07's subject)",
